@@ -142,6 +142,43 @@ def extract():
     if not (isinstance(bits_dec, tuple) and all(isinstance(b, int) and b >= 0 for b in bits_dec)):
         raise TableError("_decode_channel_into: accepted bit widths not found")
     defs["csegBitsDec"] = "def csegBitsDec : List Nat := " + lean_list(map(str, bits_dec))
+    # --- chunk_encoding.py: the data types and what each encoder accepts ------------------
+    ce = _module("chunk_encoding.py")
+    ngt = _const_eval(_assign_value(ce, "NEUROGLANCER_DATA_TYPES"), ce)
+    if not (isinstance(ngt, (tuple, list)) and all(isinstance(t, str) for t in ngt)):
+        raise TableError("NEUROGLANCER_DATA_TYPES is not a tuple of strings")
+    defs["neuroglancerDataTypes"] = "def neuroglancerDataTypes : List String := " + lean_list(lean_str(t) for t in ngt)
+
+    def _init_of(cls_name):
+        for node in ast.walk(ce):
+            if isinstance(node, ast.ClassDef) and node.name == cls_name:
+                for sub in node.body:
+                    if isinstance(sub, ast.FunctionDef) and sub.name == "__init__":
+                        return sub
+        raise TableError(f"{cls_name}.__init__ not found")
+    cseg_types = jpeg_type = jpeg_channels = None
+    for node in ast.walk(_init_of("CompressedSegmentationEncoder")):
+        if (isinstance(node, ast.Compare) and len(node.ops) == 1 and isinstance(node.ops[0], ast.NotIn)
+                and isinstance(node.left, ast.Name) and node.left.id == "data_type"):
+            cseg_types = _const_eval(node.comparators[0], ce)
+    for node in ast.walk(_init_of("JpegChunkEncoder")):
+        if isinstance(node, ast.Compare) and len(node.ops) == 1 and isinstance(node.left, ast.Name):
+            if node.left.id == "data_type" and isinstance(node.ops[0], ast.NotEq):
+                jpeg_type = _const_eval(node.comparators[0], ce)
+            if node.left.id == "num_channels" and isinstance(node.ops[0], ast.NotIn):
+                jpeg_channels = _const_eval(node.comparators[0], ce)
+    if isinstance(cseg_types, (set, frozenset)):
+        cseg_types = tuple(sorted(cseg_types))
+    if isinstance(jpeg_channels, (set, frozenset)):
+        jpeg_channels = tuple(sorted(jpeg_channels))
+    if not (isinstance(cseg_types, (tuple, list)) and all(isinstance(t, str) for t in cseg_types)):
+        raise TableError("CompressedSegmentationEncoder.__init__: accepted data types not found")
+    if not (isinstance(jpeg_type, str) and isinstance(jpeg_channels, (tuple, list))
+            and all(isinstance(c, int) and c >= 0 for c in jpeg_channels)):
+        raise TableError("JpegChunkEncoder.__init__: accepted data type / channel counts not found")
+    defs["csegDataTypes"] = "def csegDataTypes : List String := " + lean_list(lean_str(t) for t in cseg_types)
+    defs["jpegDataType"] = f"def jpegDataType : String := {lean_str(jpeg_type)}"
+    defs["jpegChannels"] = "def jpegChannels : List Nat := " + lean_list(map(str, jpeg_channels))
     # --- file_accessor.py ---------------------------------------------------------------
     acc = _module("accessor.py")
     fa = _module("file_accessor.py")
